@@ -39,8 +39,11 @@ def init_zygote():
 # --------------------------------------------------------------------------
 # transport
 
-FAULT_KINDS = ("http_error", "url_error", "timeout", "reset_on_read",
-               "truncated", "not_utf8", "not_json", "empty_body")
+FAULT_KINDS = ("http_error", "url_error", "timeout", "reset_on_open", "remote_disconnected",
+               "reset_on_read", "truncated", "not_utf8", "not_json", "empty_body")
+# faults after which no value may be returned whatever the response mode
+HARD_FAULTS = ("http_error", "url_error", "timeout", "reset_on_open", "remote_disconnected",
+               "reset_on_read", "truncated")
 
 
 class FakeResponse(io.BytesIO):
@@ -152,6 +155,11 @@ class Transport:
             raise urllib.error.URLError("injected: name resolution failed")
         if fault == "timeout":
             raise socket.timeout("injected: timed out")
+        if fault == "reset_on_open":
+            # raised by getresponse() inside urllib's do_open: reaches the caller unwrapped
+            raise ConnectionResetError(104, "Connection reset by peer (injected)")
+        if fault == "remote_disconnected":
+            raise http.client.RemoteDisconnected("Remote end closed connection without response (injected)")
         if fault in ("reset_on_read", "truncated"):
             resp = FakeResponse(method, 200, body_b, rh, read_fault=fault)
         elif fault == "not_utf8":
